@@ -607,7 +607,7 @@ class NDCubeBase(NDCubeABC, astropy.nddata.NDData, NDCubeSlicingMixin):
         no_op, points, wcs = utils.cube.sanitize_crop_inputs(points, wcs)
         # Quit out early if we are no-op
         if no_op:
-            return tuple([slice(None)] * wcs.pixel_n_dim)
+            return tuple([slice(None)] * self.data.ndim)
         else:
             comp = [c[0] for c in wcs.world_axis_object_components]
             # Trim to unique component names - `np.unique(..., return_index=True)
@@ -637,14 +637,18 @@ class NDCubeBase(NDCubeABC, astropy.nddata.NDData, NDCubeSlicingMixin):
     @utils.cube.sanitize_wcs
     def _get_crop_by_values_item(self, *points, units=None, wcs=None, keepdims=False):
         # Sanitize inputs.
+        n_dummy_axes = len(wcs._cube_array_axes_without_extra_coords) if isinstance(wcs, ExtraCoords) else 0
         no_op, points, wcs = utils.cube.sanitize_crop_inputs(points, wcs)
         # Quit out early if we are no-op
         if no_op:
-            return tuple([slice(None)] * wcs.pixel_n_dim)
+            return tuple([slice(None)] * self.data.ndim)
         # Convert float inputs to quantities using units.
         n_coords = len(points[0])
         if units is None:
             units = [None] * n_coords
+        elif n_dummy_axes and len(units) == n_coords - n_dummy_axes:
+            # The points were padded for the array axes without extra coords.
+            units = list(units) + [None] * n_dummy_axes
         elif len(units) != n_coords:
             raise ValueError(f"Units must be None or have same length {n_coords} as corner inputs.")
         types_with_units = (u.Quantity, type(None))
